@@ -1517,10 +1517,24 @@ class Interp:
         rt = self.types.get(inst.sig[-1])
         if rt is None or rt.kind != "adt":
             return None
-        last = inst.name.split("::<")[0].rsplit("::", 1)[-1] if not inst.name.endswith(">") else inst.name.rsplit("::", 1)[-1]
-        last = inst.name.rsplit("::", 1)[-1]
+        nm = inst.name
+        while nm.endswith(">") and "::<" in nm:        # strip trailing generic arguments (`Initializer::<'_>`)
+            depth, i = 0, len(nm) - 1
+            while i >= 0:
+                if nm[i] == ">":
+                    depth += 1
+                elif nm[i] == "<":
+                    depth -= 1
+                    if depth == 0:
+                        break
+                i -= 1
+            if i >= 2 and nm[i - 2:i] == "::":
+                nm = nm[:i - 2]
+            else:
+                break
+        last = nm.rsplit("::", 1)[-1]
         for i, v in enumerate(rt.adt["variants"]):
-            if v["name"] == last and len(v["fields"]) == len(args):
+            if (v["name"] == last or (not rt.is_enum and rt.adt["name"].rsplit("::", 1)[-1] == last)) and len(v["fields"]) == len(args):
                 return Agg(i if rt.is_enum else None, args)
         return None
 
